@@ -191,12 +191,13 @@ fn main() {
         eprintln!("usage: rtloom <avx2|avx|sse42|none> <threads> <calls> [--out json]");
         std::process::exit(2);
     }
+    let ids = simd::runtime::VERIF_BACKEND_IDS;
     let (cpu_bits, expect_id) = match args[1].as_str() {
-        "avx2" => (7u8, 1u8),
+        "avx2" => (7u8, ids[0]),
         // Sandy-Bridge-like: AVX and SSE4.2 but no AVX2
-        "avx" => (6, 2),
-        "sse42" => (2, 2),
-        "none" => (0, 3),
+        "avx" => (6, ids[1]),
+        "sse42" => (2, ids[1]),
+        "none" => (0, ids[2]),
         _ => {
             eprintln!("unknown cpu");
             std::process::exit(2);
